@@ -138,6 +138,9 @@ func (c11) Run(t *testing.T, scenario any, job *Job, res *Result) {
 	res.AddSession(out.S)
 	tag := ":" + receiverSide(sc.Sync.Arr)
 	if !sessionSucceeded(res, out.S, "") {
+		if res.Violation == nil {
+			return // inconclusive (harness trouble)
+		}
 		res.Violation.Signature += tag
 		if !root {
 			res.Violation.Signature += ":unprivileged"
